@@ -1,6 +1,7 @@
 package c16
 
 import (
+	"math"
 	"strconv"
 	"strings"
 
@@ -75,6 +76,9 @@ type Case struct {
 	// of these renders is judged against the reference text of the template rendered.
 	Sibs []Sib `json:"sibs,omitempty"`
 	Seq  []int `json:"seq,omitempty"`
+	// Names of the templates by index (chain first, then siblings): what LoadTemplate is given and what
+	// {{extends "..."}} of a derived template refers to. Empty (or unusable: see customNames): t<k> / s<j>.
+	Names []string `json:"names,omitempty"`
 }
 
 // Sib is a derived template next to the chain: extends template index P and redefines the blocks Ov.
@@ -144,8 +148,27 @@ func tplName(i int) string { return "t" + strconv.Itoa(i) }
 // ntpl: number of templates of the case (chain + valid siblings are counted by index, see Case.Sibs).
 func (c *Case) ntpl() int { return 1 + len(c.Children) + len(c.Sibs) }
 
-// name of template index k (chain: t<k>, sibling j: s<j>).
+// customNames: Names gives every template of the case a usable name of its own (non-empty, pairwise distinct,
+// without a double quote, a brace or a line break: the quoted-string syntax of {{extends "name"}}).
+func (c *Case) customNames() bool {
+	if len(c.Names) == 0 || len(c.Names) < c.ntpl() {
+		return false
+	}
+	seen := map[string]bool{}
+	for _, n := range c.Names[:c.ntpl()] {
+		if n == "" || seen[n] || strings.ContainsAny(n, "\"{}\n\r") {
+			return false
+		}
+		seen[n] = true
+	}
+	return true
+}
+
+// name of template index k (Names[k] when the case names its templates; else chain: t<k>, sibling j: s<j>).
 func (c *Case) name(k int) string {
+	if k >= 0 && k < len(c.Names) && c.customNames() {
+		return c.Names[k]
+	}
 	if n := 1 + len(c.Children); k >= n {
 		return "s" + strconv.Itoa(k-n)
 	}
@@ -242,7 +265,7 @@ func (c *Case) sibSources() []string {
 }
 
 // childSource is the text of template t(i+1): extends t(i) and redefines the given blocks.
-func childSource(i int, ch []Override) string { return extendsSource(tplName(i), ch) }
+func (c *Case) childSource(i int, ch []Override) string { return extendsSource(c.name(i), ch) }
 
 func extendsSource(parent string, ch []Override) string {
 	var sb strings.Builder
@@ -258,7 +281,7 @@ func extendsSource(parent string, ch []Override) string {
 func (c *Case) sources() []string {
 	out := []string{serialise(c.Base)}
 	for i, ch := range c.Children {
-		out = append(out, childSource(i, ch))
+		out = append(out, c.childSource(i, ch))
 	}
 	return out
 }
@@ -278,7 +301,7 @@ func (c *Case) loadSource(ld Load, final []string) (string, bool) {
 	if ld.T == 0 {
 		return serialise(v.Base), true
 	}
-	return childSource(ld.T-1, v.Ov), true
+	return c.childSource(ld.T-1, v.Ov), true
 }
 
 // schedClasses simulates the history: which kinds of earlier loads the final phase has to make irrelevant.
@@ -330,8 +353,7 @@ func (v Val) goValue() interface{} {
 		n, _ := strconv.ParseInt(v.S, 10, 64)
 		return n
 	case "f":
-		f, _ := strconv.ParseFloat(v.S, 64)
-		return f
+		return v.float()
 	case "b":
 		return v.B
 	case "m":
@@ -354,13 +376,41 @@ func goList(l []Val) []interface{} {
 	return out
 }
 
-// text is the text a scalar value is inserted as: strings verbatim, integers in decimal, floats by the
-// decimal text they were generated from (always the shortest decimal that denotes the float), booleans
-// true/false, nil nothing.
+// float is the float64 a value of type f stands for (S is one of its decimal texts, or NaN / +Inf / -Inf).
+func (v Val) float() float64 {
+	f, _ := strconv.ParseFloat(v.S, 64)
+	return f
+}
+
+// floatExact: the text of this float is free of any formatting convention, so the reference names it exactly:
+// the float is finite, not a whole number, of moderate magnitude (1e-4 <= |f| < 1e15: no notation switches to an
+// exponent there) and S is THE shortest decimal that denotes it (strconv is only used to confirm that S is that
+// decimal). Every other float (whole numbers incl. both zeros, huge, tiny, NaN, infinities) has several defensible
+// texts (42 / 42.0, 1e+21 / 1000000000000000000000, 4611686018427387904 / 4611686018427388000) and the documents
+// name none: the reference then only demands a text that parses back to the same float64 (see hole).
+func (v Val) floatExact() bool {
+	f, err := strconv.ParseFloat(v.S, 64)
+	if err != nil || math.IsNaN(f) || math.IsInf(f, 0) {
+		return false
+	}
+	if a := math.Abs(f); a < 1e-4 || a >= 1e15 || f == math.Trunc(f) {
+		return false
+	}
+	return strconv.FormatFloat(f, 'f', -1, 64) == v.S
+}
+
+// text is the text a scalar value is inserted as: strings verbatim, integers in decimal, floats by the decimal
+// text they were generated from when that text is free of convention (floatExact), else a hole that stands for
+// any text denoting the same float64; booleans true/false, nil nothing.
 func (v Val) text() string {
 	switch v.T {
-	case "s", "i", "l", "f":
+	case "s", "i", "l":
 		return v.S
+	case "f":
+		if v.floatExact() {
+			return v.S
+		}
+		return hole(v.float())
 	case "b":
 		if v.B {
 			return "true"
@@ -398,6 +448,13 @@ type interp struct {
 	multiList     bool // some loop ran over >= 2 items
 	nestedRan     bool // some nested loop emitted at least one item
 	depth3Ran     bool
+	num           numSeen // classes of the numbers that were inserted
+}
+
+// val returns the text of an inserted value and records the class of a number.
+func (ip *interp) val(v Val) string {
+	ip.num.see(v)
+	return v.text()
 }
 
 func (ip *interp) blockBody(name string, def []Node) []Node {
@@ -420,7 +477,7 @@ func (ip *interp) render(ns []Node, fr []frame) string {
 		case KVar:
 			if v, ok := ip.c.Data.Vars[n.S]; ok {
 				ip.knownVar = true
-				sb.WriteString(v.text())
+				sb.WriteString(ip.val(v))
 			} else {
 				ip.unknownVar = true
 				sb.WriteString("{{" + n.S + "}}")
@@ -430,7 +487,7 @@ func (ip *interp) render(ns []Node, fr []frame) string {
 			for i := len(fr) - 1; i >= 0 && !found; i-- {
 				if fr[i].item.T == "m" {
 					if v, ok := fr[i].item.M[n.S]; ok && v.T != "a" {
-						sb.WriteString(v.text())
+						sb.WriteString(ip.val(v))
 						found = true
 					}
 				}
@@ -509,7 +566,7 @@ func (ip *interp) render(ns []Node, fr []frame) string {
 			}
 		case KThis:
 			if len(fr) > 0 {
-				sb.WriteString(fr[len(fr)-1].item.text())
+				sb.WriteString(ip.val(fr[len(fr)-1].item))
 			}
 		case KIndex:
 			if len(fr) > 0 {
